@@ -404,9 +404,32 @@ func runDirect(i int, ac acceptance) {
 
 // ---- scenario + oracle ----
 
-func scenario(name string, cases []acceptance) e1lib.Scenario {
+// chunkSize bounds the acceptances run in one execution (the scheduler's cost per step
+// grows with the number of goroutines an execution has ever started).
+const chunkSize = 40
+
+// scenario: the acceptances of one class. A grouped scenario starts with an enumerated
+// environment choice of the chunk to run: answer 0 (the canonical one) runs nothing, answer
+// k>0 (one "deviation") runs cases [(k-1)*chunkSize, k*chunkSize) on the canonical schedule.
+// Deviation bound 1 on a grouped scenario therefore is: every acceptance of the class, each
+// on the canonical schedule. A single (sched) scenario has no chunk choice.
+func scenario(name string, cases []acceptance, grouped bool) e1lib.Scenario {
+	nChunks := (len(cases) + chunkSize - 1) / chunkSize
 	body := func() {
-		for i, ac := range cases {
+		lo, hi := 0, len(cases)
+		if grouped {
+			k := rt.Choice("h:chunk", nChunks+1)
+			rt.Log("chunk %d of %d (%d acceptances in this class)", k, nChunks, len(cases))
+			lo, hi = (k-1)*chunkSize, k*chunkSize
+			if k == 0 {
+				lo, hi = 0, 0
+			}
+			if hi > len(cases) {
+				hi = len(cases)
+			}
+		}
+		for i := lo; i < hi; i++ {
+			ac := cases[i]
 			if ac.cfg.direct {
 				runDirect(i, ac)
 			} else {
@@ -426,8 +449,20 @@ func scenario(name string, cases []acceptance) e1lib.Scenario {
 		proposed := map[int]string{}
 		result := map[int]string{}
 		var other []string
+		lo, hi := 0, len(cases)
 		for _, l := range r.Logs {
 			var i int
+			var k int
+			if n, _ := fmt.Sscanf(l, "chunk %d ", &k); n == 1 {
+				lo, hi = (k-1)*chunkSize, k*chunkSize
+				if k == 0 {
+					lo, hi = 0, 0
+				}
+				if hi > len(cases) {
+					hi = len(cases)
+				}
+				continue
+			}
 			if n, _ := fmt.Sscanf(l, "case %d ", &i); n != 1 {
 				continue
 			}
@@ -443,7 +478,8 @@ func scenario(name string, cases []acceptance) e1lib.Scenario {
 		}
 		byKey := map[string][]string{}
 		add := func(key, what string) { byKey[key] = append(byKey[key], what) }
-		for i, ac := range cases {
+		for i := lo; i < hi; i++ {
+			ac := cases[i]
 			id := fmt.Sprintf("accept(v=%d, %s)", ac.v, ac.d.label)
 			if ac.cfg.direct {
 				id = fmt.Sprintf("offer={%d} ", ac.cfg.v0) + id
@@ -491,7 +527,7 @@ func scenario(name string, cases []acceptance) e1lib.Scenario {
 		var out []rt.Finding
 		for _, k := range keys {
 			w := byKey[k]
-			what := fmt.Sprintf("%d of %d acceptances of this class; first: %s", len(w), len(cases), w[0])
+			what := fmt.Sprintf("%d of the %d acceptances run (cases %d..%d of %d in this class); first: %s", len(w), hi-lo, lo, hi-1, len(cases), w[0])
 			if len(w) > 1 {
 				what += "; last: " + w[len(w)-1]
 			}
@@ -548,8 +584,8 @@ func gen(thorough bool) []e1lib.Scenario {
 	}
 	var scs []e1lib.Scenario
 	for _, name := range order {
-		s := scenario(name, groups[name])
-		s.MinB, s.MaxB, s.Budget = 0, 0, 300*time.Second
+		s := scenario(name, groups[name], true)
+		s.MinB, s.MaxB, s.Budget = 1, 1, 600*time.Second
 		scs = append(scs, s)
 	}
 	// all schedules with <= 1 deviation for one representative acceptance of every class
@@ -558,7 +594,7 @@ func gen(thorough bool) []e1lib.Scenario {
 		if !thorough && !(strings.HasPrefix(name, "conn|ntn|") || strings.HasSuffix(name, "|offered|valid-own-magic")) {
 			continue
 		}
-		s := scenario("sched|"+name, []acceptance{l[len(l)/2]})
+		s := scenario("sched|"+name, []acceptance{l[len(l)/2]}, false)
 		s.MinB, s.MaxB, s.Budget = 1, 1, 60*time.Second
 		if thorough && k%5 == 0 {
 			s.MaxB, s.Budget = 2, 120*time.Second
